@@ -45,16 +45,24 @@ def lf_str(a):
 
 
 class V:
-    __slots__ = ("k", "u", "s", "kk", "sh", "wild", "cval", "count_of", "index_of", "elem", "axis", "obj", "tup", "note", "origin")
+    __slots__ = ("k", "u", "s", "kk", "sh", "wild", "cval", "count_of", "index_of", "elem", "axis", "obj", "tup", "note", "origin", "part", "mconst", "lconst", "dconst", "naive_exp")
 
     def __init__(self, k="unk", u=ZERO, s=0, sh=None, wild=False, cval=None, count_of=None, index_of=None, elem=None, axis=None, obj=None, tup=None, note="", kk=0, origin=None):
         self.k, self.u, self.s, self.sh, self.wild, self.cval = k, u, Fr(s), sh, wild, cval
         self.count_of, self.index_of, self.elem, self.axis, self.obj, self.tup, self.note = count_of, index_of, elem, axis, obj, tup, note
         self.kk = Fr(kk)
         self.origin = origin
+        self.part = False  # computed from a single block of a block list (not yet folded over the blocks)
+        # compile-time constant folding of the Gaussian normaliser (C01 CONST):
+        self.mconst = 1.0   # linear value = mconst * (dimensioned part); None = unknown factor
+        self.lconst = 0.0   # log value  = log(dimensioned part) + lconst (per element); None = unknown
+        self.dconst = 0.0   # log value  = ... + dconst * d (d = feature count); None = unknown
+        self.naive_exp = False  # exp() of an un-normalised log-density (a dimensioned linear density)
 
     def copy(self, **kw):
         v = V(self.k, self.u, self.s, self.sh, self.wild, self.cval, self.count_of, self.index_of, self.elem, self.axis, self.obj, self.tup, self.note, self.kk, self.origin)
+        v.part = self.part
+        v.mconst, v.lconst, v.dconst, v.naive_exp = self.mconst, self.lconst, self.dconst, self.naive_exp
         for a, b in kw.items():
             setattr(v, a, b if a not in ("s", "kk") else Fr(b))
         return v
@@ -80,7 +88,7 @@ def fmt(v):
     if v.k == "unk":
         return "?" + (f"({v.note})" if v.note else "")
     if v.k == "obj":
-        return f"<{v.obj}>"
+        return f"<{v.obj}>" + ("~block" if v.part else "")
     if v.k == "list":
         return f"list[{v.axis}] of {fmt(v.elem)}"
     if v.k == "tuple":
@@ -99,10 +107,35 @@ def fmt(v):
         core += f"·S^{v.s}"
     if v.kk != 0:
         core += f"·K^{v.kk}"
-    return core + sh
+    return core + sh + ("~block" if v.part else "")
 
 
 UNK = V("unk")
+BLOCK_AXES = ("B", "?1")
+
+
+def mark_part(v, flag=True):
+    """A copy of v flagged as computed from one block only (deep for tuples)."""
+    if v is None:
+        return v
+    if v.k == "tuple" and v.tup is not None:
+        w = V("tuple", tup=tuple(mark_part(x, flag) for x in v.tup), note=v.note)
+        w.part = flag
+        return w
+    w = v.copy()
+    w.part = flag
+    return w
+
+
+def any_part(vals):
+    for v in vals:
+        if v is None:
+            continue
+        if v.part:
+            return True
+        if v.k == "tuple" and v.tup and any_part(v.tup):
+            return True
+    return False
 
 
 def unk(note=""):
@@ -151,6 +184,7 @@ def parse_type(t):
     s = Fr(0)
     kk = Fr(0)
     w = False
+    dconst = 0.0
     for tok in t.split():
         if tok == "LOG":
             k = "log"
@@ -158,6 +192,10 @@ def parse_type(t):
             w = True
         elif tok == "1":
             pass
+        elif tok == "c2pi":
+            dconst = 1.8378770664093453  # log(2*pi) per feature
+        elif tok == "-halfc2pi":
+            dconst = -0.9189385332046727
         elif tok.startswith("S"):
             s = Fr(tok[1:]) if len(tok) > 1 else Fr(1)
         elif tok.startswith("K"):
@@ -172,7 +210,9 @@ def parse_type(t):
                 u = lf_add(u, lf(Fr(e), 0))
     if k == "log" and u == ZERO:
         k = "num"  # the logarithm of a pure number is a pure number
-    return V(k, u, s, sh, wild=w, kk=kk)
+    v = V(k, u, s, sh, wild=w, kk=kk)
+    v.dconst = dconst
+    return v
 
 
 # ---------------------------------------------------------------------------------------------
@@ -183,6 +223,19 @@ def bshape(a, b, ctx):
     """Broadcast two shapes; returns (shape, mismatch description or None)."""
     if a is None or b is None:
         return None, None
+    return _bshape(a, b)
+
+
+def vshape(a, b):
+    """Broadcast the shapes of two values; a polymorphic value of unknown shape does not constrain the result."""
+    if a.sh is None and a.wild:
+        return b.sh, None
+    if b.sh is None and b.wild:
+        return a.sh, None
+    return bshape(a.sh, b.sh, None)
+
+
+def _bshape(a, b):
     n = max(len(a), len(b))
     aa = ("1",) * (n - len(a)) + tuple(a)
     bb = ("1",) * (n - len(b)) + tuple(b)
@@ -292,12 +345,13 @@ class Interp:
             inc = self.ev(st.value, env)
             res = self.binop(st.op, cur, inc, st, aug=True)
             # fold over a block list?
-            if self.loop_axes and self.loop_axes[-1] == "B" and isinstance(st.op, ast.Add):
+            if self.loop_axes and self.loop_axes[-1] in BLOCK_AXES and isinstance(st.op, ast.Add):
+                res = mark_part(res, False)
                 self.c.fold_sites.append((self.f.key, st, inc))
                 if self.c.track_s and inc.is_numlike and not inc.wild and inc.s == 0 and not inc.is_unk:
-                    self.violation("DIM.D4", st, f"`{src(st)}` sums a per-block value of type {fmt(inc)} over the blocks: it is intensive (an average over the block's samples, S^0), so the sum over blocks is chunk-dependent and not the whole-data quantity; block partials must be sums over samples (S^1)")
+                    self.violation("EXT.D4", st, f"`{src(st)}` sums a per-block value of type {fmt(inc)} over the blocks: it is intensive (an average over the block's samples, S^0), so the sum over blocks is chunk-dependent and not the whole-data quantity; block partials must be sums over samples (S^1)")
                 elif inc.is_numlike and not inc.wild:
-                    self.ok("DIM.D4", st, f"block partial {fmt(inc)} is extensive")
+                    self.ok("EXT.D4", st, f"block partial {fmt(inc)} is extensive")
             self.assign(st.target, res, env, st, aug=True)
         elif isinstance(st, ast.Expr):
             self.ev(st.value, env)
@@ -326,6 +380,7 @@ class Interp:
         elif isinstance(st, ast.Return):
             v = self.ev(st.value, env) if st.value is not None else V("none")
             self.rets.append((st, v))
+            self.c.facts.setdefault("returns", []).append((self.f.key, st, v))
             env["<dead>"] = True
         elif isinstance(st, ast.Raise):
             env["<dead>"] = True
@@ -389,7 +444,7 @@ class Interp:
                 n = len(v.sh)
                 op = test.ops[0]
                 return {ast.Eq: n == k, ast.NotEq: n != k, ast.Lt: n < k, ast.LtE: n <= k, ast.Gt: n > k, ast.GtE: n >= k}.get(type(op))
-        if isinstance(test, ast.Compare) and len(test.ops) == 1 and isinstance(test.ops[0], (ast.Is, ast.IsNot)) and const_value(test.comparators[0]) is None and isinstance(test.comparators[0], ast.Constant):
+        if isinstance(test, ast.Compare) and len(test.ops) == 1 and isinstance(test.ops[0], (ast.Is, ast.IsNot)) and const_value(test.comparators[0]) is None and isinstance(test.comparators[0], ast.Constant) and isinstance(test.left, ast.Name):
             v = self.ev(test.left, env)
             if v.k == "none":
                 return isinstance(test.ops[0], ast.Is)
@@ -449,7 +504,10 @@ class Interp:
     def iter_elem(self, it, node, env):
         """(axis kind of the iteration, element value)"""
         if it.k == "list":
-            return it.axis or "?", it.elem if it.elem is not None else unk("empty list element")
+            el = it.elem if it.elem is not None else unk("empty list element")
+            if it.axis in BLOCK_AXES:
+                el = mark_part(el)
+            return it.axis or "?", el
         if it.k == "range":
             return it.axis or "?", V("num", index_of=it.axis, wild=True)
         if it.k == "tuple" and it.note == "zip":
@@ -559,8 +617,11 @@ class Interp:
             base = self.ev(t.value, env)
             if base.k == "obj":
                 decl = self.c.attr_decl(base.obj, t.attr)
+                self.c.facts.setdefault("attr_stores", []).append((self.f.key, node, base.obj, t.attr, v))
                 if decl is not None:
                     self.check_decl(decl, v, node, f"{base.obj}.{t.attr}", rule="DIM.D2")
+                    if self.c.track_s and any_part([v]) and not base.part and decl.k in ("num", "log", "tuple"):
+                        self.violation("EXT.PART", node, f"{base.obj}.{t.attr} receives a value computed from a single block of the data ({fmt(v)}) that was never folded over the blocks: the stored quantity depends on the chunking")
                 else:
                     env[src(t)] = v
             else:
@@ -598,19 +659,30 @@ class Interp:
             if v.wild or decl.wild:
                 self.ok(rule, node, f"{label}: polymorphic value accepted for {fmt(decl)}")
                 return
-            dk = (decl.k, decl.u, decl.s if self.c.track_s else v.s, decl.kk)
-            vk = (v.k, v.u, v.s, v.kk)
+            dk = (decl.k, decl.u, decl.kk)
+            vk = (v.k, v.u, v.kk)
             if dk != vk:
-                self.violation(rule, node, f"{label} is declared {fmt(decl.copy(sh=None))} (its transformation law under feature rescaling / its extensiveness) but the stored value has type {fmt(v.copy(sh=None))}")
+                self.violation(rule, node, f"{label} is declared {fmt(decl.copy(sh=None, s=0))} (its transformation law under feature rescaling) but the value has type {fmt(v.copy(sh=None, s=0))}")
+                return
+            if self.c.track_s and decl.s != v.s:
+                self.violation(rule.replace("DIM.", "EXT."), node, f"{label} is declared {fmt(decl.copy(sh=None))} but the value has type {fmt(v.copy(sh=None))}: its sample extent differs (S^1 = a sum over samples, S^0 = a per-sample or averaged quantity), so it is not the quantity of the whole data set when blocks are combined")
                 return
             if decl.sh is not None and v.sh is not None and len(decl.sh) == len(v.sh):
-                bad = [(a, b) for a, b in zip(decl.sh, v.sh) if a != b and "?" not in (a, b) and "1" not in (a, b)]
+                bad = [(a, b) for a, b in zip(decl.sh, v.sh) if a != b and not a.startswith("?") and not b.startswith("?") and "1" not in (a, b)]
                 if bad:
                     self.violation(rule + "-shape", node, f"{label} is declared with axes {list(decl.sh)} but the value has axes {list(v.sh)}")
                     return
-            elif decl.sh is not None and v.sh is not None and len(decl.sh) != len(v.sh) and "?" not in v.sh:
+            elif decl.sh is not None and v.sh is not None and len(decl.sh) != len(v.sh) and not any(x.startswith("?") for x in v.sh):
                 self.violation(rule + "-shape", node, f"{label} is declared with axes {list(decl.sh)} but the value has axes {list(v.sh)}")
                 return
+            if decl.k == "log" and decl.dconst != 0.0:
+                import math
+                if v.dconst is None or v.lconst is None:
+                    self.undecided("DIM.CONST", node, f"{label}: the constant part of the log-normaliser could not be folded")
+                elif abs(v.dconst - decl.dconst) > 1e-9 or abs(v.lconst) > 1e-9:
+                    self.violation("DIM.CONST", node, f"{label}: the pure-number part of the normaliser folds to {v.dconst:.6g}*d{'' if abs(v.lconst) < 1e-9 else f' + {v.lconst:.6g}'} but must be {decl.dconst:.6g}*d (= {'log(2*pi)' if decl.dconst > 0 else '-0.5*log(2*pi)'} per feature): the implied density does not integrate to one")
+                else:
+                    self.ok("DIM.CONST", node, f"{label}: constant folds to {v.dconst:.6g}*d")
             self.ok(rule, node, f"{label}: {fmt(v)}")
         elif decl.k == "tuple" and v.k == "tuple" and decl.tup and v.tup and len(decl.tup) == len(v.tup):
             for i, (d_, x) in enumerate(zip(decl.tup, v.tup)):
@@ -678,7 +750,7 @@ class Interp:
         if base.k == "obj":
             decl = self.c.attr_decl(base.obj, e.attr)
             if decl is not None:
-                return decl
+                return mark_part(decl) if base.part else decl
             # property getter of a repo class: analyse it
             ci = self.P.class_index.get(base.obj)
             if ci is not None:
@@ -695,7 +767,10 @@ class Interp:
             if e.attr == "shape":
                 if base.sh is None:
                     return V("tuple", tup=None, note="shape")
-                return V("tuple", tup=tuple(V("num", count_of=a, s=1 if (a == "N" and self.c.track_s) else 0, sh=()) for a in base.sh), note="shape")
+                tp = tuple(V("num", count_of=a, s=1 if (a == "N" and self.c.track_s) else 0, sh=()) for a in base.sh)
+                for x in tp:
+                    x.part = base.part
+                return V("tuple", tup=tp, note="shape")
             if e.attr in ("ndim", "size", "nbytes", "dtype"):
                 return wild(sh=())
             return V("func", note="arraymethod:" + e.attr, origin=base)
@@ -715,9 +790,7 @@ class Interp:
         el = vs[0]
         for x in vs[1:]:
             el = self.join(el, x, e)
-        ax = "B" if (len(vs) == 1 and (vs[0].k in ("tuple", "obj") or (vs[0].k == "unk"))) else "?"
-        if len(vs) == 1 and vs[0].k in ("tuple", "obj"):
-            ax = "B"  # the one-block list of the in-memory arm
+        ax = "?1" if len(vs) == 1 else "?"  # a one-element display: the one-block list of the in-memory arm, or a batch of one
         return V("list", axis=ax, elem=el)
 
     def ev_Dict(self, e, env):
@@ -817,15 +890,22 @@ class Interp:
             return b if a.wild else a
         if a.k == "log" or b.k == "log":
             return None
-        ak = (a.u, a.s if self.c.track_s else 0, a.kk)
-        bk = (b.u, b.s if self.c.track_s else 0, b.kk)
-        if ak != bk:
-            self.violation("DIM.D1", node, f"{what} of {fmt(a.copy(sh=None))} and {fmt(b.copy(sh=None))}: the terms do not have the same dimension/extent, so the formula cannot be equivariant under feature rescaling (or mixes a sum over samples with a per-sample quantity)")
+        if (a.u, a.kk) != (b.u, b.kk):
+            self.violation("DIM.D1", node, f"{what} of {fmt(a.copy(sh=None, s=0))} and {fmt(b.copy(sh=None, s=0))}: the terms do not have the same dimension, so the formula cannot be equivariant under feature rescaling")
+            return False
+        if self.c.track_s and a.s != b.s:
+            self.violation("EXT.D1", node, f"{what} of {fmt(a.copy(sh=None))} and {fmt(b.copy(sh=None))}: a sum over samples is combined with a per-sample/averaged quantity")
             return False
         self.ok("DIM.D1", node, f"{what}: {fmt(a.copy(sh=None))}")
         return True
 
     def binop(self, op, a, b, node, aug=False):
+        r = self._binop(op, a, b, node, aug)
+        if (a.part or b.part) and r is not None and not r.part:
+            r = mark_part(r)
+        return r
+
+    def _binop(self, op, a, b, node, aug=False):
         if a.k == "list" and b.k == "list" and isinstance(op, ast.Add):
             return V("list", axis=a.axis, elem=self.join(a.elem, b.elem, node) if a.elem and b.elem else (a.elem or b.elem))
         if a.k == "list" and isinstance(op, ast.Mult):
@@ -841,7 +921,7 @@ class Interp:
             if a.is_unk or b.is_unk:
                 return unk((a.note or b.note))
             return unk(f"{type(op).__name__} on {fmt(a)} and {fmt(b)}")
-        sh, bad = bshape(a.sh, b.sh, node)
+        sh, bad = vshape(a, b)
         if bad and not isinstance(op, ast.MatMult):
             self.violation("DIM.SHAPE", node, bad + ": the operands are mis-broadcast")
         cv = None
@@ -868,7 +948,10 @@ class Interp:
                 if o.k == "log":
                     return unk("product of two log-domain values")
                 if o.wild and o.cval is not None:
-                    return l.copy(u=lf_scale(l.u, o.cval), sh=sh, cval=None)
+                    r = l.copy(u=lf_scale(l.u, o.cval), sh=sh, cval=None)
+                    r.lconst = None if l.lconst is None else l.lconst * o.cval
+                    r.dconst = None if l.dconst is None else l.dconst * o.cval
+                    return r
                 if o.wild:
                     return unk("log-domain value scaled by an unknown constant")
                 if o.u == ZERO and o.count_of == "D":
@@ -877,11 +960,20 @@ class Interp:
                 return unk("log-domain value multiplied by a non-constant")
             if a.wild and b.wild:
                 return wild(sh, cv)
-            if a.wild:
-                return b.copy(sh=sh, cval=None, count_of=None, index_of=None)
-            if b.wild:
-                return a.copy(sh=sh, cval=None, count_of=None, index_of=None)
-            return V("num", lf_add(a.u, b.u), a.s + b.s, sh, kk=a.kk + b.kk)
+            if a.wild or b.wild:
+                w, o = (a, b) if a.wild else (b, a)
+                r = o.copy(sh=sh, cval=None, count_of=None, index_of=None)
+                if o.count_of == "D" and o.k == "num" and o.u == ZERO:
+                    # d * c : a pure number proportional to the feature count
+                    r.dconst = None if w.cval is None else w.cval * (o.dconst if o.dconst not in (0.0, None) else 1.0)
+                    r.count_of = None
+                elif o.k == "num" and o.dconst not in (0.0,):
+                    r.dconst = None if (w.cval is None or o.dconst is None) else o.dconst * w.cval
+                r.mconst = None if (w.cval is None or o.mconst is None) else o.mconst * w.cval
+                return r
+            r = V("num", lf_add(a.u, b.u), a.s + b.s, sh, kk=a.kk + b.kk)
+            r.mconst = None if (a.mconst is None or b.mconst is None) else a.mconst * b.mconst
+            return r
         if isinstance(op, (ast.Div, ast.FloorDiv)):
             if a.k == "log":
                 if b.k == "log":
@@ -927,12 +1019,34 @@ class Interp:
         if a.k == "log" and b.k == "log":
             if self.c.track_s and a.s != b.s:
                 self.violation("DIM.LOG", node, f"log-domain values of different sample extent are combined: {fmt(a.copy(sh=None))} and {fmt(b.copy(sh=None))}")
-            return V("log", lf_add(a.u, lf_scale(b.u, sign)), a.s, sh)
+            r = V("log", lf_add(a.u, lf_scale(b.u, sign)), a.s, sh)
+            r.lconst = None if (a.lconst is None or b.lconst is None) else a.lconst + sign * b.lconst
+            r.dconst = None if (a.dconst is None or b.dconst is None) else a.dconst + sign * b.dconst
+            if r.u == ZERO:
+                r.k = "num"
+            return r
         l, o = (a, b) if a.k == "log" else (b, a)
         if o.wild or (o.u == ZERO and (o.s == 0 or not self.c.track_s)):
-            if a.k != "log" and sign == -1:
-                return V("log", lf_scale(l.u, -1), l.s, sh)
-            return l.copy(sh=sh, cval=None)
+            osign = sign if o is b else 1
+            lsign = 1 if l is a else sign
+            r = l.copy(sh=sh, cval=None) if lsign == 1 else V("log", lf_scale(l.u, -1), l.s, sh)
+            ld, ll = l.dconst, l.lconst
+            if lsign == -1:
+                ld = None if ld is None else -ld
+                ll = None if ll is None else -ll
+            # the pure number added: a multiple of d (count of features times a constant), a literal constant, or something unknown
+            if o.count_of == "D" or getattr(o, "dcoef", None) is not None or (o.dconst not in (0.0, None) and o.k == "num"):
+                c = o.dconst if o.dconst not in (0.0, None) else (o.mconst if o.count_of == "D" else None)
+                r.dconst = None if (ld is None or c is None) else ld + osign * c
+                r.lconst = ll
+            elif o.cval is not None:
+                r.lconst = None if ll is None else ll + osign * o.cval
+                r.dconst = ld
+            elif o.k == "num" and not o.wild and o.u == ZERO and o.dconst == 0.0 and o.lconst == 0.0 and o.mconst == 1.0:
+                r.lconst, r.dconst = ll, ld  # a data-dependent pure number (quadratic form, log-weights): no constant contributed
+            else:
+                r.lconst, r.dconst = ll, (None if (o.wild and o.cval is None) else ld)
+            return r
         self.violation("DIM.LOG", node, f"a log-domain value {fmt(l.copy(sh=None))} is combined with {fmt(o.copy(sh=None))}, which is not a pure number: the sum is not the logarithm of anything with a dimension")
         return unk("log +- dimensioned")
 
@@ -972,7 +1086,8 @@ class Interp:
         if base.k == "list":
             if isinstance(sl, ast.Slice):
                 return base
-            return base.elem if base.elem is not None else unk("element of empty list")
+            el = base.elem if base.elem is not None else unk("element of empty list")
+            return mark_part(el) if base.axis in BLOCK_AXES else el
         if base.k == "dict":
             return base.elem if base.elem is not None else unk("element of empty dict")
         if base.k == "func" and base.note and base.note.endswith("hdf5"):
